@@ -671,4 +671,89 @@ theorem d1Witness_not_equiv : ¬ (parseUri (intoUriSep [] d1Witness.query d1Witn
   have := h.2.2.2.2.2.2.length_eq
   simp [d1Witness] at this
 
+
+/-! ### every string of Unicode scalar values encodes to valid UTF-8 -/
+
+theorem char_range (c : Char) : c.toNat < 0xD800 ∨ (0xDFFF < c.toNat ∧ c.toNat < 0x110000) := by
+  have := c.valid
+  simp only [UInt32.isValidChar, Nat.isValidChar] at this
+  exact this
+
+theorem valid1 (b0 : UInt8) (rest : Str) (h0 : b0.toNat < 128) : validUtf8 (b0 :: rest) = validUtf8 rest := by
+  conv => lhs; unfold validUtf8
+  have : b0 < 128 := by simp [UInt8.lt_iff_toNat_lt]; omega
+  simp [this]
+
+theorem valid2 (b0 b1 : UInt8) (rest : Str) (h0 : 194 ≤ b0.toNat ∧ b0.toNat ≤ 223) (h1 : 128 ≤ b1.toNat ∧ b1.toNat ≤ 191) :
+    validUtf8 (b0 :: b1 :: rest) = validUtf8 rest := by
+  conv => lhs; unfold validUtf8
+  have a1 : ¬ (b0 < 128) := by simp [UInt8.lt_iff_toNat_lt]; omega
+  have a2 : (194 : UInt8) ≤ b0 ∧ b0 ≤ 223 := by simp [UInt8.le_iff_toNat_le]; omega
+  have a3 : isCont b1 = true := by simp [isCont, UInt8.le_iff_toNat_le]; omega
+  simp [a1, a2, a3]
+
+theorem valid3 (b0 b1 b2 : UInt8) (rest : Str) (h0 : 224 ≤ b0.toNat ∧ b0.toNat ≤ 239)
+    (h1 : 128 ≤ b1.toNat ∧ b1.toNat ≤ 191) (h1a : b0.toNat = 224 → 160 ≤ b1.toNat) (h1b : b0.toNat = 237 → b1.toNat ≤ 159)
+    (h2 : 128 ≤ b2.toNat ∧ b2.toNat ≤ 191) :
+    validUtf8 (b0 :: b1 :: b2 :: rest) = validUtf8 rest := by
+  conv => lhs; unfold validUtf8
+  have a1 : ¬ (b0 < 128) := by simp [UInt8.lt_iff_toNat_lt]; omega
+  have a2 : ¬ ((194 : UInt8) ≤ b0 ∧ b0 ≤ 223) := by simp [UInt8.le_iff_toNat_le]; omega
+  have a3 : (224 : UInt8) ≤ b0 ∧ b0 ≤ 239 := by simp [UInt8.le_iff_toNat_le]; omega
+  have a4 : isCont b2 = true := by simp [isCont, UInt8.le_iff_toNat_le]; omega
+  have a5 : second3 b0 b1 = true := by
+    unfold second3
+    by_cases e1 : b0 = 0xE0
+    · have := h1a (by rw [e1]; rfl)
+      simp [e1, UInt8.le_iff_toNat_le]; omega
+    · by_cases e2 : b0 = 0xED
+      · have := h1b (by rw [e2]; rfl)
+        simp [e2, UInt8.le_iff_toNat_le]; omega
+      · simp [e1, e2, UInt8.le_iff_toNat_le]; omega
+  simp [a1, a2, a3, a4, a5]
+
+theorem valid4 (b0 b1 b2 b3 : UInt8) (rest : Str) (h0 : 240 ≤ b0.toNat ∧ b0.toNat ≤ 244)
+    (h1 : 128 ≤ b1.toNat ∧ b1.toNat ≤ 191) (h1a : b0.toNat = 240 → 144 ≤ b1.toNat) (h1b : b0.toNat = 244 → b1.toNat ≤ 143)
+    (h2 : 128 ≤ b2.toNat ∧ b2.toNat ≤ 191) (h3 : 128 ≤ b3.toNat ∧ b3.toNat ≤ 191) :
+    validUtf8 (b0 :: b1 :: b2 :: b3 :: rest) = validUtf8 rest := by
+  conv => lhs; unfold validUtf8
+  have a1 : ¬ (b0 < 128) := by simp [UInt8.lt_iff_toNat_lt]; omega
+  have a2 : ¬ ((194 : UInt8) ≤ b0 ∧ b0 ≤ 223) := by simp [UInt8.le_iff_toNat_le]; omega
+  have a2' : ¬ ((224 : UInt8) ≤ b0 ∧ b0 ≤ 239) := by simp [UInt8.le_iff_toNat_le]; omega
+  have a3 : (240 : UInt8) ≤ b0 ∧ b0 ≤ 244 := by simp [UInt8.le_iff_toNat_le]; omega
+  have a4 : isCont b2 = true := by simp [isCont, UInt8.le_iff_toNat_le]; omega
+  have a4' : isCont b3 = true := by simp [isCont, UInt8.le_iff_toNat_le]; omega
+  have a5 : second4 b0 b1 = true := by
+    unfold second4
+    by_cases e1 : b0 = 0xF0
+    · have := h1a (by rw [e1]; rfl)
+      simp [e1, UInt8.le_iff_toNat_le]; omega
+    · by_cases e2 : b0 = 0xF4
+      · have := h1b (by rw [e2]; rfl)
+        simp [e2, UInt8.le_iff_toNat_le]; omega
+      · simp [e1, e2, UInt8.le_iff_toNat_le]; omega
+  simp [a1, a2, a2', a3, a4, a4', a5]
+
+theorem validUtf8_encChar (c : Char) (rest : Str) : validUtf8 (encChar c ++ rest) = validUtf8 rest := by
+  have hr := char_range c
+  unfold encChar
+  simp only
+  by_cases h1 : c.toNat < 0x80
+  · simp only [h1, if_true, List.singleton_append]
+    exact valid1 _ _ (by rw [UInt8.toNat_ofNat']; omega)
+  · by_cases h2 : c.toNat < 0x800
+    · simp only [h1, h2, if_true, if_false, List.cons_append, List.nil_append]
+      exact valid2 _ _ _ (by rw [UInt8.toNat_ofNat']; omega) (by rw [UInt8.toNat_ofNat']; omega)
+    · by_cases h3 : c.toNat < 0x10000
+      · simp only [h1, h2, h3, if_true, if_false, List.cons_append, List.nil_append]
+        apply valid3 <;> (simp only [UInt8.toNat_ofNat']; omega)
+      · simp only [h1, h2, h3, if_false, List.cons_append, List.nil_append]
+        apply valid4 <;> (simp only [UInt8.toNat_ofNat']; omega)
+
+theorem validUtf8_utf8 (cs : List Char) : validUtf8 (utf8 cs) = true := by
+  induction cs with
+  | nil => rfl
+  | cons c r ih => simp only [utf8, List.flatMap_cons] at ih ⊢; rw [validUtf8_encChar, ih]
+
+
 end Askar.Uri
